@@ -78,7 +78,7 @@ def run_stream(ctx, name, cases_path):
     impl_crashed = rc != 0
     if impl_crashed:
         # run again with line-by-line flushing so that the output is complete up to the case that kills the process
-        rc, err = ctx["run_lines"](ctx["vh"], [name, "run"], cases_path, impl_path, dict(VH_FLUSH="1"))
+        rc, err = ctx["run_lines"](ctx["vh"], [name, "run"], cases_path, impl_path, dict(VH_FLUSH="1"), 180)
     with open(impl_path, errors="replace") as f:
         impl = f.read().splitlines()
     model = None
